@@ -160,7 +160,7 @@ func checkC18(c *Ctx) {
 		c.Ob("C18.stalecap", "-", "-", "reslices-scanned", "-", n > 0, "no reslice found in the library")
 	}
 	// ---- package-level caches are read-only for their users
-	c.Rule("C18.cache", "L-CACHE: an object obtained from a package-level cache (sync.Map global: Load, or the getter functions that return its values) is never written — by a store, or by handing it, or a local now holding it, to a callee whose mod summary writes that argument's elements — and never returned by an exported function: cached objects are shared by all callers and goroutines", 8)
+	c.Rule("C18.cache", "L-CACHE: an object obtained from a package-level cache (sync.Map global: Load, or the getter functions that return its values) is never written — by a store, or by handing it, or a local now holding it, to a callee whose mod summary writes that argument's elements — and never returned by an exported function; an object handed to Store / LoadOrStore of such a cache is complete at that point (no store, copy or writing call through it afterwards in the function): cached objects are shared by all callers and goroutines", 8)
 	{
 		ci, sites, hits := cacheViolations(p, eff, libFuncs(p))
 		c.Instance("C18.cache", sites)
